@@ -10,6 +10,9 @@
 //	R9  time.AfterFunc(...)                            -> simhook.AfterFunc(...): the simulator adds a
 //	    few ns, different for every timer, so that no two transaction timers expire in one
 //	    instant (the order of their callbacks would be the Go runtime's, not the seed's)
+//	R10 time.NewTicker(...)                            -> simhook.NewTicker(...): the same ticker, but
+//	    the simulator is told when it was started and with which period (it then knows
+//	    every instant at which a tick can fall due)
 //	R7  `select` over receive cases only (no default)  -> the simulator chooses which READY
 //	    case runs when several are ready (the others' channels are nil for that round)
 //
@@ -75,7 +78,7 @@ type edit struct {
 	text       string
 }
 
-type counts struct{ R1, R2, R3, R6, R7, R8, R9 int }
+type counts struct{ R1, R2, R3, R6, R7, R8, R9, R10 int }
 
 func die(f string, a ...any) {
 	fmt.Fprintf(os.Stderr, "seamgen: "+f+"\n", a...)
@@ -179,6 +182,7 @@ func main() {
 			total.R7 += c.R7
 			total.R8 += c.R8
 			total.R9 += c.R9
+			total.R10 += c.R10
 			sites = append(sites, ss...)
 			if len(edits) == 0 {
 				continue
@@ -205,6 +209,9 @@ func main() {
 	}
 	if total.R9 == 0 {
 		die("rule R9 matched nothing (time.AfterFunc)")
+	}
+	if total.R10 == 0 {
+		die("rule R10 matched nothing (time.NewTicker)")
 	}
 	if total.R3 == 0 {
 		die("rule R3 matched nothing (range over map)")
@@ -259,11 +266,11 @@ func main() {
 	}
 	sort.Strings(sites)
 	rb, _ := json.MarshalIndent(map[string]any{
-		"R1": total.R1, "R2": total.R2, "R3": total.R3, "R6": total.R6, "R7": total.R7, "R8": total.R8, "R9": total.R9, "map_range_and_select_sites": sites,
+		"R1": total.R1, "R2": total.R2, "R3": total.R3, "R6": total.R6, "R7": total.R7, "R8": total.R8, "R9": total.R9, "R10": total.R10, "map_range_and_select_sites": sites,
 	}, "", " ")
 	_ = os.WriteFile(filepath.Join(*out, "seamgen.json"), rb, 0o644)
 	if !*quiet {
-		fmt.Printf("seamgen: R1=%d R2=%d R3=%d R6=%d R7=%d R8=%d R9=%d files=%d\n", total.R1, total.R2, total.R3, total.R6, total.R7, total.R8, total.R9, len(overlay))
+		fmt.Printf("seamgen: R1=%d R2=%d R3=%d R6=%d R7=%d R8=%d R9=%d R10=%d files=%d\n", total.R1, total.R2, total.R3, total.R6, total.R7, total.R8, total.R9, total.R10, len(overlay))
 	}
 }
 
@@ -390,6 +397,11 @@ func rewriteFile(fset *token.FileSet, f *ast.File, src []byte, info *types.Info,
 			if id, ok := isNetSel(x.Fun, "ListenUDP", info); ok {
 				edits = append(edits, edit{off(id.Pos()), off(id.End()), "simhook"})
 				c.R2++
+			}
+			if id, ok := isPkgSel(x.Fun, "time", "NewTicker", info); ok {
+				edits = append(edits, edit{off(id.Pos()), off(id.End()), "simhook"})
+				timeName = id.Name
+				c.R10++
 			}
 			if id, ok := isPkgSel(x.Fun, "time", "AfterFunc", info); ok {
 				edits = append(edits, edit{off(id.Pos()), off(id.End()), "simhook"})
